@@ -15,7 +15,7 @@ from ..lib import build_filter, build_instance, ref
 
 ID = "C16"
 RULE = (
-    "Generated: instance (all shapes incl. flexible, irregular, recirculation, "
+    "Generated (the node lists a graph hands out are edited by the caller before the graph is inspected): instance (all shapes incl. flexible, irregular, recirculation, "
     "unused machine ids) x the 4 graph builders: node list and typed edge set "
     "are compared as sets in both directions with an independent construction "
     "from the matrices (operation nodes first with node_id == operation_id, "
@@ -162,6 +162,13 @@ def edge_type(data):
 
 def check_builder(ctx, inst, instance, builder):
     g = obs.BUILDERS[builder](instance)
+    # a caller takes the lists the graph hands out and works on them (sorts,
+    # pops, extends) - its own lists; the graph is looked at afterwards
+    for handed_out in (g.non_removed_nodes(), list(g.nodes), g.nodes_by_type.get(next(iter(g.nodes_by_type)), [])[:]):
+        handed_out.reverse()
+        if handed_out:
+            handed_out.pop()
+        handed_out.extend(handed_out[:1])
     nodes, req, opt = expected_graph(inst, builder)
     got_nodes = real_nodes(g)
     ctx.check(
